@@ -76,3 +76,55 @@ Theorem C17_nonvacuous :
     ops_of patches = Some ops /\ length ops = 1%nat /\ eval g_from ops = Some d /\ doc_eqb d g_to = true /\ doc_eqb g_to d = true.
 Proof. exact gen_example. Qed.
 Print Assumptions C17_nonvacuous.
+
+(** ==================================================================================================
+    The round trip through the MODEL's own apply_patch (round 3; by C16_conform for operation sequences,
+    Properties_C16.v).  For all well-formed documents 'from' and 'to' ('to' no deeper than
+    CJSON_CIRCULAR_LIMIT, as in [C17_roundtrip]; the two documents together below 2^63 nodes, so that no
+    container of an intermediate document can exceed SIZE_MAX elements): the generated patch array, applied by
+    cJSONUtils_ApplyPatchesCaseSensitive
+      - to 'from' as it was before generation (the copy the harness takes; members in their original order), and
+      - to 'from' as generation leaves it ([f'], members sorted in place — [doc_same] to 'from': exactly the same
+        document up to member order),
+    returns 0 and yields a document equal to 'to' ([doc_eq]: arrays in order, objects as name/value sets). *)
+From CJ Require Import PatchExact PatchSeq2Rfc PatchSeq2Op PatchSeqAll PatchSeq2Fit PatchSeq2Gen PatchSeq2Round.
+
+Theorem C17_roundtrip_model : forall from to, dwf from -> dwf to -> shallow to ->
+  2 * Z.of_nat (node_size from + node_size to) <= SIZE_MAX ->
+  exists patches f' t',
+    cJSONUtils_GeneratePatchesCaseSensitive from to = Ok (patches, f', t') /\
+    doc_same f' from /\
+    (exists d p1, cJSONUtils_ApplyPatchesCaseSensitive from patches = Ok (0, d, p1) /\ doc_eq d to) /\
+    (exists d p2, cJSONUtils_ApplyPatchesCaseSensitive f' patches = Ok (0, d, p2) /\ doc_eq d to).
+Proof. exact roundtrip_model. Qed.
+Print Assumptions C17_roundtrip_model.
+
+(** Generation leaves 'from' exactly the same document under the same member name (any trees, both case
+    modes): sorting member lists is all it does to it. *)
+Theorem C17_from_intact_exact : forall fuel ps path from to cs ps' f' t',
+  create_patches fuel ps path from to cs = Ok (ps', f', t') -> doc_same f' from /\ n_key f' = n_key from.
+Proof. exact create_patches_keeps. Qed.
+Print Assumptions C17_from_intact_exact.
+
+(** What create_patches appends (for well-formed 'from', well-formed duplicable 'to' no wider than W, a pointer
+    text [path] that is a C string of unsigned chars and parses): at most |from| + |to| operation objects, each
+    with members named by C strings, read by RFC 6902 as an add / remove / replace that satisfies the hypotheses
+    of [C16_conform] ([gen_ok]). *)
+Theorem C17_generated_operations : forall W fuel ps path from to ps' f' t',
+  dwf from -> dwf to /\ shallow to /\ (width to <= W)%nat -> pathok path ->
+  create_patches fuel ps path from to true = Ok (ps', f', t') ->
+  exists new, ps' = ps ++ new /\ Forall (gen_ok W) new /\ (length new <= node_size from + node_size to)%nat.
+Proof. exact create_patches_gen. Qed.
+Print Assumptions C17_generated_operations.
+
+(** non-vacuity of [C17_roundtrip_model] on the witness of finding F14, {"b":1,"a":2} -> {"b":1,"a":2,"c":[3]}:
+    hypotheses hold; generation re-orders 'from'; the patch applied by the model to the original and to the
+    re-ordered 'from' returns 0 with two (different) documents both equal to 'to'. *)
+Theorem C17_roundtrip_model_nonvacuous :
+  dwf g_from /\ dwf g_to /\ shallow g_to /\ 2 * Z.of_nat (node_size g_from + node_size g_to) <= SIZE_MAX /\
+  exists patches f' t' d p1,
+    cJSONUtils_GeneratePatchesCaseSensitive g_from g_to = Ok (patches, f', t') /\ f' <> g_from /\
+    cJSONUtils_ApplyPatchesCaseSensitive g_from patches = Ok (0, d, p1) /\ doc_eqb d g_to = true /\
+    exists d2 p2, cJSONUtils_ApplyPatchesCaseSensitive f' patches = Ok (0, d2, p2) /\ doc_eqb d2 g_to = true /\ d2 <> d.
+Proof. exact gen_example_model. Qed.
+Print Assumptions C17_roundtrip_model_nonvacuous.
